@@ -199,11 +199,11 @@ def step (s : St) (e : Ev) : Option St :=
   | .fwd t c =>
     match s.pc t with
     | .pred p =>
-      if p.isValue = false ∧ c = p ∧ s.delivered = 0 then some (deliver s t c .out none) else none
+      if p.isValue = false ∧ c = p then some (deliver s t c .out none) else none
     | .rst q =>
-      if outSig s q = some c ∧ s.delivered = 0 then some (deliver s t c .out none) else none
+      if outSig s q = some c then some (deliver s t c .out none) else none
     | .sch q =>
-      if s.cfg.swapped q = true ∧ outSig s q = some c ∧ s.delivered = 0 then some (deliver s t c (.fwdd q) (some t))
+      if s.cfg.swapped q = true ∧ outSig s q = some c then some (deliver s t c (.fwdd q) (some t))
       else none
     | _ => none
   | .ret t =>
